@@ -92,9 +92,8 @@ class Consensus:
             for bucket in consensus:
                 for elem in bucket:
                     if elem not in self._elem_position:
-
-                        self._elem_position[elem] = [-1] * self.nb_elements
-                        self._elem_position[elem][id_consensus] = position
+                        self._elem_position[elem] = [-1] * len(consensus_rankings)
+                    self._elem_position[elem][id_consensus] = position
                 position += len(bucket)
             id_consensus += 1
 
